@@ -21,6 +21,8 @@ G = Struct('G', [Field('g', u8, 'greedy')])
 TU16 = Typedef('TU16', u16)
 TTU16 = Typedef('TTU16', TU16)
 TS2 = Typedef('TS2', S2)
+TU64 = Typedef('TU64', u64)
+TS8 = Typedef('TS8', S8)
 SO = Struct('SO', [Field('o', u16, 'optional')])               # struct containing an optional (union arm / element)
 UO = Union('UO', [(1, 'p', SO), (2, 'q', u8)])
 DO = Struct('DO', [Field('v', u8, 'dynamic'), Field('o', u8, 'optional')])   # dynamic struct ending in an optional
@@ -38,7 +40,7 @@ def _k():
                  ('r32', r32), ('r64', r64), ('E0', E0), ('E1', E1), ('S1', S1), ('S2', S2), ('S8', S8), ('U4', U4), ('U8', U8),
                  ('D', D), ('D8', D8), ('TTU16', TTU16), ('TS2', TS2), ('UO', UO), ('DO', DO), ('U12', U12)]:
         plain(n, t)
-    for n, t in [('u8', u8), ('u16', u16), ('u32', u32), ('u64', u64), ('E1', E1), ('S2', S2), ('S8', S8), ('U4', U4), ('U8', U8), ('r32', r32), ('SL', SL)]:
+    for n, t in [('u8', u8), ('u16', u16), ('u32', u32), ('u64', u64), ('E1', E1), ('S2', S2), ('S8', S8), ('U4', U4), ('U8', U8), ('r32', r32), ('SL', SL), ('TU64', TU64), ('TS8', TS8)]:
         K['opt_' + n] = lambda nm, t=t: [Field(nm, t, 'optional')]
     for n, t in [('u8', u8), ('u16', u16), ('u64', u64), ('E0', E0), ('S2', S2), ('U8', U8), ('SE5', SE5)]:
         K['fix_' + n] = lambda nm, t=t: [Field(nm, t, ('fixed', 2))]
